@@ -44,6 +44,9 @@ CHECKS = {
  "C17": dict(cat="exploration", tech="deterministic simulation: scheduler (pool size, task order, fresh OS threads) x storage faults (short/interrupted I/O, crash = durable prefix) x restart epochs", ref="DESIGN.md 4/C17",
    text="Key generation is repeated under different simulated pools and task orders on fresh OS threads and must give byte-identical verifying keys; vk, pk and params go through write / restart / read epochs over a fault-injecting disk (short writes and reads, EINTR, crash mid-write) in every compatible format pair and must re-serialise identically, keep their transcript identity and remain interchangeable (proofs from original and reloaded pk under original and reloaded vk); downsize and re-derived parameters are compared byte for byte.",
    note="HashMap iteration order cannot be seeded, so order dependence is detected with probability >= 1 - 2^-5 per run by repetition on fresh threads; GenCircuit family at k <= 8 (standard-library keys are covered through C16's decoders)."),
+ "C18": dict(cat="exploration", tech="deterministic simulation of two implementations of one interface (off-circuit interpreter vs compiled circuit) on generated IR programs, with program-corruption faults, a Byzantine prover (witness-cell faults with honest continuation) on the compiled circuit and storage faults (short / interrupted I/O) on the serialised forms; the interpreter is the reference model", ref="DESIGN.md 4/C18",
+   text="Generated straight-line IR programs (1..25 instructions over all 17 operations and 6 value types, dataflow reuse, constants, every load published first, results published last) with boundary-class witnesses (0, max BigUint of the declared width, identity point, scalar order-1, scalars >= order through bytes, byte arrays of length 0..70) are evaluated off-circuit and compiled: success with published values P requires the circuit to be satisfiable with exactly format_instance(P) (instance read off the copy constraints), an assertion / range / underflow / encoding failure requires it not to be; ill-typed, wrong-arity, duplicate-name, missing-name and missing-witness variants must get an error value from both sides, never a panic; under a Byzantine prover an accepted execution must publish what the interpreter computes from the loads the circuit binds; the binary form written and read through faulty writers / readers must re-encode identically and decode to the JSON form's instructions.",
+   note="The interpreter is one of the two systems under test (hash / arithmetic gadgets get independent references under C04-C07). SHA-256 / SHA-512 instructions only in every 8th program; programs needing k > 13 are skipped (counted). Two known findings (publication of a JubjubScalar decoded from 0 or >= 32 bytes)."),
  "C03": dict(cat="fault_enumeration", tech="deterministic simulation with channel faults (corruption, truncation, duplication, reordering, misdelivery) placed per proof element via the tracing transcript; statement-store oracle", ref="DESIGN.md 4/C03",
    text="Every element of every sampled proof is replaced by other valid and by invalid encodings, the proof is truncated at every element boundary, extended, reordered and bit-flipped, every public-input vector is edited / permuted / shortened / extended / moved, committed instances, vk and transcript hash are swapped; each altered delivery must be rejected with an error and the untouched delivery must still be accepted afterwards.",
    note="Cryptographic soundness error ignored; proofs come from the GenCircuit family at k <= 7; thorough mode flips every bit only of proofs <= 2 KiB."),
